@@ -203,7 +203,8 @@ theorem C08_merge_decision (filters : List Nat) (up down : List RObj) (o1 o2 : R
   mergeDecision_sound filters up down o1 o2 h1 h2
 
 /-- P2: merging an object with its single normal child removes exactly one of the two objects; every other object of the
-    subtree (normal, memory, I/O, Misc) is kept, unchanged except that a child replacing a parent that has memory children takes over the parent's
+    subtree (normal, memory, I/O, Misc) is kept (the memory children list parent's ++ child's is re-sorted by complete nodeset,
+    hwloc__reorder_memory_children, fix 5313a43), unchanged except that a child replacing a parent that has memory children takes over the parent's
     complete sets (`noComplete` = the object without its complete sets) -/
 theorem C08_merge_exact (a : RObj) (rc : Bool) (o co : RObj) (cns cms cios cmis ms ios mis : List Tree) :
     cnt noComplete a (objsT (mergeNode rc o [.node co cns cms cios cmis] ms ios mis)) + cnt1 noComplete a (if rc then co else o) =
